@@ -50,12 +50,16 @@ def gen_cases(rnd, quick):
                 while fit < bits and tot + rsz(W, fit) < length:
                     tot += rsz(W, fit); fit += 1
                 if fit < 2: continue
-                ms = sorted(set(rnd.sample(range(fit), min(fit, 6 if quick else 20)) + [0, fit - 1, min(7, fit - 1), min(8, fit - 1)]))
+                # incl. the last row of every size group (m + 1 a multiple of 8 W: the stored row has no padding bit)
+                groups = [g for g in (8 * W * k - 1 for k in range(1, 9)) if g < fit]
+                ms = sorted(set(rnd.sample(range(fit), min(fit, 6 if quick else 20)) + [0, fit - 1, min(7, fit - 1), min(8, fit - 1)] + groups[:3] + [bits - 1 if bits - 1 < fit else fit - 1]))
                 rnd.shuffle(ms)
                 rows = {}
                 ops = ["n"]
+                dense = rnd.random() < 0.5          # contents: random below the diagonal, or every bit 0..m set (a stored row of all 0xFF bytes), or the unit row
                 for k, m in enumerate(ms):
-                    v = (1 << m) | (rnd.getrandbits(m) if m else 0)
+                    style = rnd.random()
+                    v = ((1 << (m + 1)) - 1) if (dense or style < 0.2) else ((1 << m) if style < 0.3 else (1 << m) | (rnd.getrandbits(m) if m else 0))
                     rows[m] = v.to_bytes(nb, "little")
                     ops.append("s %d %s" % (m, rows[m].hex()))
                     for j in ms[: k + 1]:
